@@ -30,6 +30,23 @@ pub struct Case {
     /// stay in physical order) - legal, and what the two extractors walk differs then
     #[serde(default)]
     central_shuffle: Option<u64>,
+    /// hand the extractor a RELATIVE target path that starts with `..` components (relative to the
+    /// process's working directory, which the check parks in a directory of its own)
+    #[serde(default)]
+    rel_target: bool,
+}
+
+/// The worker's working directory is parked (once) in /var/tmp/zv-c07-cwd-<pid>/a/b so that relative
+/// target paths with leading `..` can be formed; everything else in the harness uses absolute paths.
+fn parked_cwd() -> PathBuf {
+    static ONCE: std::sync::OnceLock<PathBuf> = std::sync::OnceLock::new();
+    ONCE.get_or_init(|| {
+        let d = PathBuf::from(format!("/var/tmp/zv-c07-cwd-{}/a/b", std::process::id()));
+        let _ = std::fs::create_dir_all(&d);
+        let _ = std::env::set_current_dir(&d);
+        d
+    })
+    .clone()
 }
 
 /// (path relative to root) -> (kind, mode&0o7777, content hash / link target)
@@ -128,13 +145,34 @@ fn check(c: &Case, info: &mut Info) -> Result<(), String> {
     std::fs::write(nest.join("sibling.txt"), b"sibling").map_err(|e| format!("harness: {e}"))?;
     let r = (|| -> Result<(), String> {
         let before = snapshot(&base);
+        let given: PathBuf = if c.rel_target {
+            // cwd = /var/tmp/zv-c07-cwd-<pid>/a/b  ->  ../../../<sandbox>/l1/.../target
+            let cwd = parked_cwd();
+            if std::env::current_dir().ok().as_ref() != Some(&cwd) {
+                return Err("harness: working directory is not the parked one".into());
+            }
+            Path::new("../../..").join(target.strip_prefix("/var/tmp").map_err(|e| format!("harness: {e}"))?)
+        } else {
+            target.clone()
+        };
         let res = catch(|| {
             if c.stream {
-                zip::unstable::stream::ZipStreamReader::new(Cursor::new(&b.bytes[..])).extract(&target)
+                zip::unstable::stream::ZipStreamReader::new(Cursor::new(&b.bytes[..])).extract(&given)
             } else {
-                zip::ZipArchive::new(Cursor::new(&b.bytes[..])).and_then(|mut z| z.extract(&target))
+                zip::ZipArchive::new(Cursor::new(&b.bytes[..])).and_then(|mut z| z.extract(&given))
             }
         });
+        // nothing may appear below the parked working directory either
+        if c.rel_target {
+            let cwd_root = PathBuf::from(format!("/var/tmp/zv-c07-cwd-{}", std::process::id()));
+            let stray = snapshot(&cwd_root);
+            if stray.len() != 3 {
+                let names: Vec<_> = stray.keys().filter(|p| !matches!(p.to_str(), Some("") | Some("a") | Some("a/b"))).collect();
+                rm_rf(&cwd_root);
+                let _ = std::fs::create_dir_all(parked_cwd());
+                return Err(format!("extraction into the relative target {given:?} created {names:?} outside the target (below the working directory)"));
+            }
+        }
         let after = snapshot(&base);
         let bait = PathBuf::from(format!("/var/tmp/zv-c07-{}-canarybait", std::process::id()));
         if bait.exists() {
@@ -236,10 +274,13 @@ fn safe_case() -> BoxedStrategy<Vec<Ent>> {
             let mut out: Vec<Ent> = Vec::new();
             let mut files: std::collections::HashSet<String> = Default::default();
             let mut dirs: std::collections::HashSet<String> = Default::default();
+            let mut explicit: std::collections::HashSet<String> = Default::default();
             for (comps, dir, mode, content, method) in raw {
                 let name = comps.join("/");
                 // conflict-free: no existing file is a prefix dir of this path and vice versa
-                let mut ok = !files.contains(&name) && !dirs.contains(&name);
+                // an explicit directory entry may follow entries below it (the directory is then only
+                // implied so far); a second explicit entry or a file of that name would be a conflict
+                let mut ok = !files.contains(&name) && if dir { !explicit.contains(&name) } else { !dirs.contains(&name) };
                 let mut pre = String::new();
                 for c in &comps[..comps.len() - 1] {
                     if !pre.is_empty() {
@@ -269,6 +310,7 @@ fn safe_case() -> BoxedStrategy<Vec<Ent>> {
                 }
                 if dir {
                     dirs.insert(name.clone());
+                    explicit.insert(name.clone());
                 } else {
                     files.insert(name.clone());
                 }
@@ -304,7 +346,7 @@ fn hostile_name(base_canary: String) -> BoxedStrategy<String> {
 }
 
 pub fn run(ctx: &mut Ctx) {
-    ctx.rule("archives built by the independent builder with names from a SAFE pool (unique nested paths, explicit dirs >= 0o700, any permission bits on files, no conflicts) or a HOSTILE pool ('..' chains up to 8 deep, absolute paths into a disposable canary directory, NUL, backslash chains, mixed '\\' and '/' separators in front of a '..' chain, './..' prefixes, duplicates, file/dir conflicts, symlink-typed entries, deep nesting), central directory order shuffled against the physical order in a third of the cases; extracted with ZipArchive::extract and ZipStreamReader::extract into a 12-level nested sandbox under /var/tmp. Oracle: recursive snapshot (type, mode, content hash) of everything outside the target is unchanged; an archive with an unsafe name (C06 string model) returns Err; an all-safe archive returns Ok and the tree equals the model exactly (implied parents, contents, mode & 0o777 for every entry that records one). Non-trivial = has a hostile name, or >=3 safe entries with nesting.");
+    ctx.rule("archives built by the independent builder with names from a SAFE pool (unique nested paths, explicit dirs >= 0o700, any permission bits on files, no conflicts) or a HOSTILE pool ('..' chains up to 8 deep, absolute paths into a disposable canary directory, NUL, backslash chains, mixed '\\' and '/' separators in front of a '..' chain, './..' prefixes, duplicates, file/dir conflicts, symlink-typed entries, deep nesting), central directory order shuffled against the physical order in a third of the cases; explicit directory entries may follow entries below them; a quarter of the cases pass a relative target path with leading '..' components; extracted with ZipArchive::extract and ZipStreamReader::extract into a 12-level nested sandbox under /var/tmp. Oracle: recursive snapshot (type, mode, content hash) of everything outside the target is unchanged; an archive with an unsafe name (C06 string model) returns Err; an all-safe archive returns Ok and the tree equals the model exactly (implied parents, contents, mode & 0o777 for every entry that records one). Non-trivial = has a hostile name, or >=3 safe entries with nesting.");
     ctx.assume("hostile names use only zv_-prefixed components, at most 8 '..' (cannot leave the 12-level nest) and absolute paths only under the run's own canary directory, so even a tree with broken sanitisation cannot touch anything real");
     ctx.assume("symlink-typed entries are extracted as regular files (what the code does; it cannot escape)");
     let n = ctx.q(8000, 60000);
@@ -315,8 +357,9 @@ pub fn run(ctx: &mut Ctx) {
         &|| {
             let canary = canary.clone();
             let shuf = || prop_oneof![2 => Just(None), 1 => any::<u64>().prop_map(Some)];
-            let safe = (safe_case(), any::<bool>(), shuf()).prop_map(|(entries, stream, central_shuffle)| Case { entries, safe: true, stream, central_shuffle });
-            let hostile = (safe_case(), proptest::collection::vec((hostile_name(canary), any::<bool>(), any::<bool>(), 0u32..512, crate::refzip::content::content(300)), 1..4), any::<u16>(), any::<bool>(), shuf()).prop_map(|(mut entries, hs, at, stream, central_shuffle)| {
+            let rel = || prop_oneof![3 => Just(false), 1 => Just(true)];
+            let safe = (safe_case(), any::<bool>(), shuf(), rel()).prop_map(|(entries, stream, central_shuffle, rel_target)| Case { entries, safe: true, stream, central_shuffle, rel_target });
+            let hostile = (safe_case(), proptest::collection::vec((hostile_name(canary), any::<bool>(), any::<bool>(), 0u32..512, crate::refzip::content::content(300)), 1..4), any::<u16>(), any::<bool>(), shuf(), rel()).prop_map(|(mut entries, hs, at, stream, central_shuffle, rel_target)| {
                 for (i, (name, dir, sym, mode, content)) in hs.into_iter().enumerate() {
                     let pos = ((at as usize + i * 7919) * (entries.len() + 1)) >> 16;
                     entries.insert(pos.min(entries.len()), Ent { name, dir, symlink_typed: sym, mode, content, method: 0 });
@@ -326,7 +369,7 @@ pub fn run(ctx: &mut Ctx) {
                     let e = entries[0].clone();
                     entries.push(Ent { dir: !e.dir, ..e });
                 }
-                Case { entries, safe: false, stream, central_shuffle }
+                Case { entries, safe: false, stream, central_shuffle, rel_target }
             });
             prop_oneof![1 => safe, 1 => hostile].boxed()
         },
@@ -334,6 +377,7 @@ pub fn run(ctx: &mut Ctx) {
             info.label(if c.stream { "stream-extract" } else { "seekable-extract" });
             info.label(if c.safe { "safe-pool" } else { "hostile-pool" });
             info.label_if(c.central_shuffle.is_some(), "central-order-shuffled");
+            info.label_if(c.rel_target, "relative-target-with-leading-dotdot");
             info.label_if(c.entries.iter().any(|e| e.name.contains('\\') && e.name.contains("/..")), "mixed-separator-climb");
             info.nontrivial = !c.safe || (c.entries.len() >= 3 && c.entries.iter().any(|e| e.name.contains('/')));
             match catch(|| check(c, info)) {
@@ -344,4 +388,7 @@ pub fn run(ctx: &mut Ctx) {
         },
     );
     let _ = refzip::decode_text;
+    // the parked working directory (see parked_cwd) is not needed any more
+    let _ = std::env::set_current_dir("/");
+    rm_rf(Path::new(&format!("/var/tmp/zv-c07-cwd-{}", std::process::id())));
 }
